@@ -254,9 +254,35 @@ def check_decoded(ctx, entry, t, sig):
             return out
 
         finish(guarded(fn), chk)
-    elif entry in ("with_query_dict", "with_query_seq", "with_query_mdict", "build.query", "update_query_dict"):
+    elif entry in ("with_query_dict", "with_query_seq", "with_query_mdict", "build.query", "update_query_dict", "with_query_seq_strsub", "extend_query_seq_strsub",
+                   "update_query_seq_strsub", "with_query_dict_strsub", "with_query_kwargs_strsub"):
+        from ..ops import StrSub
+
         k, v = t, t[::-1]
         pre = []
+        if entry.endswith("_strsub"):
+            ks, vs = StrSub(k), StrSub(v)
+            if entry == "with_query_seq_strsub":
+                fn, pairs = (lambda: base.with_query([(ks, vs), ("n", 1e16)])), [(k, v), ("n", "1e+16")]
+            elif entry == "extend_query_seq_strsub":
+                fn, pairs, pre = (lambda: base.extend_query(((ks, vs),))), [(k, v)], [("q", "1")]
+            elif entry == "update_query_seq_strsub":
+                fn, pairs = (lambda: base.update_query([("q", vs), ("n", 1.7e18)])), [("q", v), ("n", "1.7e+18")]
+            elif entry == "with_query_dict_strsub":
+                fn, pairs = (lambda: base.with_query({ks: [vs, -2.5e300]})), [(k, v), (k, "-2.5e+300")]
+            else:
+                fn, pairs = (lambda: base.with_query(zz=vs)), [("zz", v)]
+
+            def chk2(u):
+                rq = u.raw_query_string
+                got = raw_query_units(rq) if rq else []
+                want = [(utf8(a), utf8(b)) for a, b in pre + pairs]
+                spaces = sum(a.count(" ") + b.count(" ") for a, b in pre + pairs)
+                return [("query_pairs", want, got), ("literal_amp", len(want) - 1, count_literal(rq, "&")), ("literal_eq", len(want), count_literal(rq, "=")),
+                        ("literal_plus_only_for_spaces", spaces, count_literal(rq, "+"))]
+
+            finish(guarded(fn), chk2)
+            return
         if entry == "with_query_dict":
             fn, pairs = (lambda: base.with_query({k: v})), [(k, v)]
         elif entry == "with_query_seq":
@@ -286,7 +312,8 @@ def check_decoded(ctx, entry, t, sig):
 
 DECODED_ENTRIES = ["build.user", "build.password", "build.password_nouser", "build.password_emptyuser", "with_user", "with_password", "with_fragment", "build.fragment", "with_path", "build.path", "with_path_rel",
                    "build.path_noauth", "with_name", "div", "joinpath", "div_rel", "with_query_str", "build.query_string", "extend_query_str", "with_query_dict",
-                   "with_query_seq", "with_query_mdict", "build.query", "update_query_dict"]
+                   "with_query_seq", "with_query_mdict", "build.query", "update_query_dict", "with_query_seq_strsub", "extend_query_seq_strsub", "update_query_seq_strsub",
+                   "with_query_dict_strsub", "with_query_kwargs_strsub"]
 
 
 # ---------------------------------------------------------------------- join
